@@ -10,6 +10,8 @@
 #include "vrt_st.h"
 #include "ref_unicode.h"
 #include "gen_text.h"
+#include "gen_scale.h"
+#include "ambient.h"
 
 using vrt::Rng;
 using vrt::sfmt;
@@ -53,10 +55,50 @@ static const char LONG_OLD[] = "an old value that is long enough to live on the 
 static const Input *g_in = nullptr;
 static const char *g_route = "";
 static const char *g_mode = "";
+static std::string g_note;        // how a big input was built (scale phases); empty elsewhere
 
 static void fail(const char *kind, const std::string &detail)
 {
-    vrt::violation(sfmt("%s:%s:%s", PROP, g_route, kind), sfmt("input=%s mode=%s %s", g_in->describe().c_str(), g_mode, detail.c_str()));
+    vrt::violation(sfmt("%s:%s:%s", PROP, g_route, kind), sfmt("input=%s%s mode=%s %s", g_in->describe().c_str(), g_note.c_str(), g_mode, detail.c_str()));
+}
+
+// ---- route selection (scale phases only).  The route tables below are about 140 routes per input x 3 modes; on inputs of
+// 64 Ki .. 1 Mi units the whole table costs seconds.  While `g_sel.on`, every `stride`-th route call of the table (counted
+// in table order, starting at `offset`) is executed and the others are left to other inputs: the offset rotates with the
+// case index and the stride is 1 (whole table) on the smaller and on some of the big inputs.  Every route met on an input of
+// 4 Ki units or more gets a counter `scale.route[name|mode]` with a requirement of one execution, so a run in which some
+// route never saw a big input is inconclusive.  Outside the scale phases every route is always executed.
+struct RouteSel {
+    bool on = false, big = false;
+    unsigned stride = 1, offset = 0, ordinal = 0;
+};
+static RouteSel g_sel;
+static bool route_selected(const char *name, const char *mode)
+{
+    if (!g_sel.on) return true;
+    const unsigned ord = g_sel.ordinal++;
+    const bool run = g_sel.stride <= 1 || ord % g_sel.stride == g_sel.offset % g_sel.stride;
+    if (g_sel.big) {
+        const std::string key = sfmt("scale.route[%s|%s]", name, mode);
+        vrt::require(key, 1);
+        if (run) vrt::count(key);
+    }
+    static uint64_t &ran = vrt::counter("scale.route_calls.executed"), &left = vrt::counter("scale.route_calls.left_to_other_inputs");
+    ++(run ? ran : left);
+    return run;
+}
+
+// got / want of a failed comparison: whole values when short, otherwise the sizes and a window around the first difference
+template <typename T> static std::string diffu(const std::basic_string<T> &got, const std::basic_string<T> &want)
+{
+    if (got.size() <= 48 && want.size() <= 48) return sfmt("got=%s want=%s", showu(got).c_str(), showu(want).c_str());
+    const size_t n = std::min(got.size(), want.size());
+    size_t k = 0;
+    while (k < n && got[k] == want[k]) ++k;
+    const size_t lo = k > 8 ? k - 8 : 0;
+    return sfmt("got.size=%zu want.size=%zu first difference at unit %zu: got[%zu..]=%s want[%zu..]=%s", got.size(), want.size(), k,
+                lo, vrt::hex(got.data() + lo, std::min<size_t>(24, got.size() - lo), sizeof(T)).c_str(),
+                lo, vrt::hex(want.data() + lo, std::min<size_t>(24, want.size() - lo), sizeof(T)).c_str());
 }
 
 // result adapters -> std::basic_string, with the size/terminator monitor
@@ -77,15 +119,16 @@ static S units(const std::u8string &s) { return S(reinterpret_cast<const char *>
 template <typename T, typename F>
 static void route(const char *name, const char *mode, bool want_ok, const std::basic_string<T> &want, F &&f)
 {
+    if (!route_selected(name, mode)) return;
     g_route = name;
     g_mode = mode;
     vrt::evals();
     vrt::cur_rewind();
-    vrt::cur_printf("route=%s mode=%s input=%s\n", name, mode, g_in->describe().c_str());
+    vrt::cur_printf("route=%s mode=%s input=%s%s\n", name, mode, g_in->describe().c_str(), g_note.c_str());
     try {
         std::basic_string<T> got = units(f());
         if (!want_ok) fail("accepted-invalid", "got=" + showu(got));
-        else if (got != want) fail(got.size() != want.size() ? "wrong-size" : "wrong-units", sfmt("got=%s want=%s", showu(got).c_str(), showu(want).c_str()));
+        else if (got != want) fail(got.size() != want.size() ? "wrong-size" : "wrong-units", diffu(got, want));
     } catch (const ST::unicode_error &e) {
         if (want_ok) fail("unexpected-unicode_error", e.what());
     }
@@ -107,13 +150,23 @@ static Expect expect(const ref::Decoded &d, bool strict)
     e.okLs = ref::to_latin1(d, strict, false, e.eLs);
     return e;
 }
+// expect() under both settings, computed once per input: check_validity gives another outcome than the lenient modes only
+// when some unit is BAD or some value lies above U+10FFFF (see ref::to_*), so the second evaluation is skipped otherwise
+struct Expects {
+    Expect lenient, strict;
+    bool two = false;
+    explicit Expects(const ref::Decoded &d) : lenient(expect(d, false))
+    {
+        for (long v : d) if (v == ref::BAD || v > 0x10FFFF) { two = true; break; }
+        if (two) strict = expect(d, true);
+    }
+    const Expect &operator()(bool want_strict) const { return want_strict && two ? strict : lenient; }
+};
 static const char *mname(int m) { return m == 0 ? "assume_valid" : m == 1 ? "substitute_invalid" : "check_validity"; }
 
 // ---------------------------------------------------------------- ST::string -> everything
-static void string_outputs(const ST::string &s, const S &bytes)
+static void string_outputs(const ST::string &s, const S &bytes, const Expect &e)       // e = expect(decode_utf8(bytes), false): to_* read the stored bytes with assume_valid
 {
-    const ref::Decoded d = ref::decode_utf8(bytes);
-    const Expect e = expect(d, false);             // to_* read the stored bytes with assume_valid
     const char *m = "n/a";
     route<char>("string.to_utf8", m, true, bytes, [&] { return s.to_utf8(); });
     route<char16_t>("string.to_utf16", m, true, e.e16, [&] { return s.to_utf16(); });
@@ -169,10 +222,11 @@ static void from_utf8(const Input &in, bool full)
     const size_t n = b.size();
     const char8_t *p8 = reinterpret_cast<const char8_t *>(p);
     ST::char_buffer cb(b.data(), b.size());
+    const Expects ex(d);
     for (int mi = 0; mi < 3; ++mi) {
         const ST::utf_validation_t m = MODES[mi];
         const bool strict = mi == 2;
-        const Expect e = expect(d, strict);
+        const Expect &e = ex(strict);
         const char *mn = mname(mi);
         route<char16_t>("utf8_to_utf16", mn, e.ok16, e.e16, [&] { return ST::utf8_to_utf16(p, n, m); });
         route<char32_t>("utf8_to_utf32", mn, e.ok32, e.e32, [&] { return ST::utf8_to_utf32(p, n, m); });
@@ -247,7 +301,7 @@ static void from_utf8(const Input &in, bool full)
     {
         const int di = EXPECT_DEFAULT == ST::assume_valid ? 0 : EXPECT_DEFAULT == ST::substitute_invalid ? 1 : 2;
         const bool strict = di == 2;
-        const Expect e = expect(d, strict);
+        const Expect &e = ex(strict);
         const S wants = di == 1 ? ref::cleanup_utf8(b) : b;
         const bool oks = !(strict && bad);
         const char *mn = "default";
@@ -295,7 +349,7 @@ static void from_utf8(const Input &in, bool full)
         route<char>("operator\"\"_stbuf(char)", "n/a", true, b, [&] { return ST::literals::operator""_stbuf(p, n); });
         route<char>("operator\"\"_stbuf(char8_t)", "n/a", true, b, [&] { return ST::literals::operator""_stbuf(p8, n); });
         vrt::Box<ST::string> st(ST::string::from_validated(p, n));
-        string_outputs(*st, b);
+        string_outputs(*st, b, ex(false));
         // std::filesystem::path routes (text without NUL; a path is a C string underneath)
         if (full && !bad && !ref::has_nonscalar(d) && b.find('\0') == S::npos) {
             const std::filesystem::path pth(std::u8string(p8, n));
@@ -320,9 +374,10 @@ static void from_utf16(const Input &in, bool full)
     const char16_t *p = x.data();
     const size_t n = u.size();
     ST::utf16_buffer ub(u.data(), u.size());
+    const Expects ex(d);
     for (int mi = 0; mi < 3; ++mi) {
         const ST::utf_validation_t m = MODES[mi];
-        const Expect e = expect(d, mi == 2);
+        const Expect &e = ex(mi == 2);
         const char *mn = mname(mi);
         route<char>("utf16_to_utf8", mn, e.ok8, e.e8, [&] { return ST::utf16_to_utf8(p, n, m); });
         route<char32_t>("utf16_to_utf32", mn, e.ok32, e.e32, [&] { return ST::utf16_to_utf32(p, n, m); });
@@ -361,7 +416,7 @@ static void from_utf16(const Input &in, bool full)
     }
     if (HAVE_EXPECT_DEFAULT || !ref::has_bad(d)) {
         const int di = EXPECT_DEFAULT == ST::assume_valid ? 0 : EXPECT_DEFAULT == ST::substitute_invalid ? 1 : 2;
-        const Expect e = expect(d, di == 2);
+        const Expect &e = ex(di == 2);
         const char *mn = "default";
         route<char>("utf16_to_utf8", mn, e.ok8, e.e8, [&] { return ST::utf16_to_utf8(p, n); });
         route<char32_t>("utf16_to_utf32", mn, e.ok32, e.e32, [&] { return ST::utf16_to_utf32(p, n); });
@@ -384,7 +439,7 @@ static void from_utf16(const Input &in, bool full)
     }
     {
         // literal operators use assume_valid
-        const Expect e = expect(d, false);
+        const Expect &e = ex(false);
         route<char>("operator\"\"_st(char16_t)", "n/a", e.ok8, e.e8, [&] { return ST::literals::operator""_st(p, n); });
         route<char16_t>("operator\"\"_stbuf(char16_t)", "n/a", true, u, [&] { return ST::literals::operator""_stbuf(p, n); });
     }
@@ -404,9 +459,10 @@ static void from_utf32(const Input &in, bool full)
     const size_t n = u.size();
     ST::utf32_buffer ub(u.data(), u.size());
     ST::wchar_buffer wb(w.data(), w.size());
+    const Expects ex(d);
     for (int mi = 0; mi < 3; ++mi) {
         const ST::utf_validation_t m = MODES[mi];
-        const Expect e = expect(d, mi == 2);
+        const Expect &e = ex(mi == 2);
         const char *mn = mname(mi);
         route<char>("utf32_to_utf8", mn, e.ok8, e.e8, [&] { return ST::utf32_to_utf8(p, n, m); });
         route<char16_t>("utf32_to_utf16", mn, e.ok16, e.e16, [&] { return ST::utf32_to_utf16(p, n, m); });
@@ -469,7 +525,7 @@ static void from_utf32(const Input &in, bool full)
     }
     if (HAVE_EXPECT_DEFAULT || !ref::has_bad(d)) {
         const int di = EXPECT_DEFAULT == ST::assume_valid ? 0 : EXPECT_DEFAULT == ST::substitute_invalid ? 1 : 2;
-        const Expect e = expect(d, di == 2);
+        const Expect &e = ex(di == 2);
         const char *mn = "default";
         route<char>("utf32_to_utf8", mn, e.ok8, e.e8, [&] { return ST::utf32_to_utf8(p, n); });
         route<char16_t>("utf32_to_utf16", mn, e.ok16, e.e16, [&] { return ST::utf32_to_utf16(p, n); });
@@ -501,7 +557,7 @@ static void from_utf32(const Input &in, bool full)
         }
     }
     {
-        const Expect e = expect(d, false);
+        const Expect &e = ex(false);
         route<char>("operator\"\"_st(char32_t)", "n/a", e.ok8, e.e8, [&] { return ST::literals::operator""_st(p, n); });
         route<char>("operator\"\"_st(wchar_t)", "n/a", e.ok8, e.e8, [&] { return ST::literals::operator""_st(pw, n); });
         route<char32_t>("operator\"\"_stbuf(char32_t)", "n/a", true, u, [&] { return ST::literals::operator""_stbuf(p, n); });
@@ -634,6 +690,8 @@ static unsigned long random_scalar(Rng &r)
     }
 }
 
+static void scale_phase(bool wellformed, uint64_t quick_cases);
+
 static void c01_body()
 {
     PROP = "C01";
@@ -713,6 +771,7 @@ static void c01_body()
             }
         }
     });
+    scale_phase(true, 700);
 }
 
 // ---- malformed inputs ----------------------------------------------------
@@ -972,6 +1031,367 @@ static void malformed_phases(bool safety_only)
     }
 }
 
+// ================================================================ scale phases (C01, C02, C03)
+// Inputs of 16 units .. 4 MiB built by concatenation: [run][piece][gap, second piece][run], where the runs are well-formed
+// text of one kind (constant ASCII, varied ASCII, one multi-unit character repeated, mixed widths; for the malformed
+// properties also a constant ill-formed unit) whose length in units of the SOURCE encoding is chosen so that the piece - a
+// character of another width, and for C02/C03 a truncated sequence, a lone surrogate, a bad code point, an overlong or other
+// tolerated form - ends on, begins on, straddles or sits 1..9 units beside a multiple q*B of a block size B, measured from the
+// beginning of the input, from its end, or from the start of a stretch of ASCII that follows non-ASCII text; the fourth layout
+// puts the pieces 0..9 units after the start of the input in front of a run of q*B units.  The case index walks the grid
+// B x q; the source encoding and the layout come from a weighted table that is rotated against the grid from pass to pass.
+// All inputs go through the same monitors as the short ones (from_scalars / from_latin1 for C01, run8 / run16 / run32 for
+// C02 and C03), with the route selection described at `RouteSel`.
+namespace big {
+
+template <typename T> using Str = std::basic_string<T>;
+enum Enc { E8 = 0, E16, E32, EL };
+static const char *const ENC_NAME[] = {"utf8", "utf16", "utf32", "latin1"};
+static const char *const KIND_NAME[] = {"beginning", "end", "start_of_ascii_stretch", "start_of_input_before_long_run"};
+static const char *const PIECE_NAME[] = {"well_formed_character", "truncated_sequence_or_bad_value", "other_ill_formed_or_tolerated_form"};
+
+static void put(Enc e, S &out, unsigned long cp) { if (e == EL) out += static_cast<char>(cp); else ref::enc_utf8(out, cp); }
+static void put(Enc, S16 &out, unsigned long cp) { ref::enc_utf16(out, cp); }
+static void put(Enc, S32 &out, unsigned long cp) { out += static_cast<char32_t>(cp); }
+template <typename T> static Str<T> ch(Enc e, unsigned long cp) { Str<T> s; put(e, s, cp); return s; }
+
+template <typename T> struct Bg {
+    std::vector<Str<T>> chars;      // one entry: that character repeated; several: drawn at random
+    bool ascii = false;             // every unit is below 0x80
+    const char *cls = "";
+};
+
+// cls: 0 constant ASCII, 1 varied ASCII, 2 one non-ASCII character repeated, 3 mixed widths, 4 one ill-formed unit repeated
+template <typename T> static Bg<T> background(Rng &r, Enc e, unsigned cls)
+{
+    Bg<T> b;
+    static const unsigned long hom[] = {0xE9, 0xFF, 0x80, 0x7FF, 0x100, 0x20AC, 0x800, 0xFFFF, 0xD7FF, 0xE000, 0x1F600, 0x10000, 0x10FFFF};
+    static const unsigned long homL[] = {0xFF, 0xFF, 0xE9, 0x80, 0xA0, 0xC4};
+    static const unsigned long mix[] = {0x61, 0x7A, 0x20, 0x41, 0xE9, 0x7FF, 0x80, 0x20AC, 0x800, 0xFFFF, 0x1F600, 0x10FFFF};
+    switch (cls) {
+    case 0: b.chars.push_back(ch<T>(e, static_cast<unsigned char>("ax _0"[r.below(5)]))); b.ascii = true; b.cls = "ascii_constant"; break;
+    case 1: for (unsigned long c = 0x20; c < 0x7F; ++c) b.chars.push_back(ch<T>(e, c)); b.ascii = true; b.cls = "ascii_varied"; break;
+    case 2: b.chars.push_back(ch<T>(e, e == EL ? r.pick(homL) : r.pick(hom))); b.cls = "one_non_ascii_character_repeated"; break;
+    case 3:
+        if (e == EL) { for (unsigned long c = r.chance(1, 2) ? 0x80 : 0x01; c < 0x100; ++c) b.chars.push_back(ch<T>(e, c)); }
+        else for (unsigned long c : mix) b.chars.push_back(ch<T>(e, c));
+        b.cls = "mixed";
+        break;
+    default:
+        if (e == E8) { static const unsigned char ill[] = {0xFF, 0x80, 0xC3, 0xF8}; b.chars.push_back(Str<T>(1, static_cast<T>(r.pick(ill)))); }
+        else if (e == E16) b.chars.push_back(Str<T>(1, static_cast<T>(r.chance(1, 2) ? 0xD800 : 0xDFFF)));
+        else if (e == E32) b.chars.push_back(Str<T>(1, static_cast<T>(r.chance(1, 2) ? 0x110000 : 0xD800)));
+        else b.chars.push_back(Str<T>(1, static_cast<T>(0xFF)));
+        b.cls = "one_ill_formed_unit_repeated";
+        break;
+    }
+    return b;
+}
+
+// exactly n units of background (whole characters; what does not divide is made up with 'a')
+template <typename T> static void fill(Str<T> &out, size_t n, const Bg<T> &bg, Rng &r)
+{
+    if (bg.chars.size() == 1) {
+        const Str<T> &c = bg.chars[0];
+        out.append(n % c.size(), static_cast<T>('a'));
+        if (c.size() == 1) out.append(n, c[0]);
+        else for (size_t k = n / c.size(); k-- > 0;) out += c;
+        return;
+    }
+    while (n) {
+        const Str<T> &c = r.pick(bg.chars);
+        if (c.size() <= n) { out += c; n -= c.size(); }
+        else { out += static_cast<T>('a'); --n; }
+    }
+}
+
+template <typename T> struct Piece {
+    Str<T> u;
+    int cls = 0;      // index into PIECE_NAME
+};
+
+static const S TR8[] = {S("\xC3"), S("\xDF"), S("\xE2"), S("\xE2\x82"), S("\xEF\xBF"), S("\xF0"), S("\xF0\x9F"), S("\xF0\x9F\x98"), S("\xF4\x8F\xBF")};
+static const S IL8[] = {S("\x80"), S("\xBF\x80"), S("\xC0\x80"), S("\xC1\xBF"), S("\xE0\x80\x80"), S("\xED\xA0\x80"), S("\xED\xBF\xBF"), S("\xF4\x90\x80\x80"),
+                        S("\xF7\xBF\xBF\xBF"), S("\xF8"), S("\xFE"), S("\xFF"), S("\xC0"), S("\xF5")};
+static const S16 TR16[] = {S16(1, 0xD800), S16(1, 0xDBFF), S16(1, 0xD83D)};
+static const S16 IL16[] = {S16(1, 0xDC00), S16(1, 0xDFFF), S16({0xDC00, 0xD800}), S16({0xDE00, 0xD83D}), S16({0xD800, 0xD800}), S16({0xD83D, 0x0041}), S16({0xDFFF, 0xDFFF})};
+static const S32 TR32[] = {S32(1, 0x110000), S32(1, 0xFFFFFFFFu)};
+static const S32 IL32[] = {S32(1, 0xD800), S32(1, 0xDFFF), S32(1, 0x7FFFFFFF), S32(1, 0x80000000u), S32(1, 0x10FFFF)};
+static Piece<char> ill_piece(Rng &r, bool truncated, const char *) { return Piece<char>{truncated ? r.pick(TR8) : r.pick(IL8), truncated ? 1 : 2}; }
+static Piece<char16_t> ill_piece(Rng &r, bool truncated, const char16_t *) { return Piece<char16_t>{truncated ? r.pick(TR16) : r.pick(IL16), truncated ? 1 : 2}; }
+static Piece<char32_t> ill_piece(Rng &r, bool truncated, const char32_t *) { return Piece<char32_t>{truncated ? r.pick(TR32) : r.pick(IL32), truncated ? 1 : 2}; }
+
+// a well-formed character that stands out against the background (another width class; never ASCII in ASCII)
+template <typename T> static Piece<T> valid_piece(Rng &r, Enc e, const Bg<T> &bg)
+{
+    static const unsigned long feat[] = {0x41, 0x7F, 0x80, 0xE9, 0xFF, 0x100, 0x7FF, 0x800, 0x20AC, 0xD7FF, 0xE000, 0xFFFD, 0xFFFF, 0x10000, 0x1F600, 0x10FFFF};
+    static const unsigned long featL[] = {0x41, 0x7F, 0x20, 0x80, 0xA0, 0xE9, 0xFF, 0xFF};
+    Piece<T> p;
+    for (int tries = 0; tries < 16; ++tries) {
+        unsigned long cp = e == EL ? r.pick(featL) : r.pick(feat);
+        if (r.chance(1, 24)) cp = 0;
+        if (bg.ascii && cp < 0x80) continue;
+        p.u = ch<T>(e, cp);
+        if (bg.chars.size() == 1 && bg.chars[0] == p.u) continue;
+        return p;
+    }
+    p.u = ch<T>(e, bg.ascii ? 0xE9 : 0x41);
+    return p;
+}
+
+template <typename T> struct Built {
+    Str<T> s;
+    size_t at = 0, back = 0, boundary = 0;      // unit offset of the piece; how many of its units lie before the boundary; the boundary's offset
+    long shift = 0;                             // piece moved this many units past (+) / before (-) the boundary
+    bool second = false;
+};
+
+static size_t margin(Rng &r)
+{
+    switch (r.below(6)) {
+    case 0: case 1: return r.below(40);
+    case 2: case 3: return 4096 + r.below(5000);
+    case 4: return 1000 + r.below(70000);
+    default: return 131072 + r.below(20000);
+    }
+}
+
+// kind 0: boundary at dist from the beginning; 1: at dist from the end; 2: at dist from the start of an ASCII stretch behind
+// non-ASCII text; 3: pieces 0..9 units after the start of the input, then a run of dist (+-) units
+template <typename T>
+static Built<T> build(Rng &r, unsigned kind, size_t dist, const Bg<T> &bg, const Bg<T> &ascii, const Bg<T> &nonascii, const Piece<T> &p1, const Piece<T> *p2, bool small)
+{
+    Built<T> b;
+    const size_t pl = p1.u.size();
+    switch (r.below(3)) {
+    case 0: b.back = pl; break;                                                  // ends on the boundary
+    case 1: b.back = 0; break;                                                   // begins on it
+    default: b.back = pl > 1 ? 1 + r.below(pl - 1) : r.below(2) * pl; break;     // straddles it
+    }
+    if (r.chance(1, 5)) {
+        b.shift = r.chance(2, 3) ? static_cast<long>(1 + r.below(9)) : -static_cast<long>(1 + r.below(9));
+        b.back = b.shift > 0 ? 0 : pl;
+    }
+    const size_t gap = 1 + r.below(9);
+    const size_t mg = small ? r.below(40) : margin(r);
+    const Bg<T> &gapbg = (bg.ascii || r.chance(2, 3)) ? ascii : bg;
+    const Bg<T> &tailbg = (bg.ascii || r.chance(1, 2)) ? bg : ascii;
+    // units in front of the piece when the boundary is `dist` units behind the reference point
+    const size_t before = static_cast<size_t>(static_cast<long>(dist - b.back) + b.shift);
+    Str<T> &s = b.s;
+    switch (kind) {
+    case 0:
+        s.reserve(before + mg + 32);
+        fill(s, before, bg, r);
+        b.at = s.size(); b.boundary = dist;
+        s += p1.u;
+        if (p2) { fill(s, gap, gapbg, r); s += p2->u; }
+        fill(s, mg, tailbg, r);
+        break;
+    case 1: {
+        s.reserve(dist + mg + 32);
+        fill(s, mg, bg, r);
+        if (p2) { s += p2->u; fill(s, gap, gapbg, r); }
+        b.at = s.size();
+        s += p1.u;
+        // the boundary lies `dist` units before the end: back units of the piece are in front of it
+        const size_t after = static_cast<size_t>(static_cast<long>(dist + b.back - pl) - b.shift);
+        fill(s, after, tailbg, r);
+        b.boundary = s.size() - dist;
+        break;
+    }
+    case 2: {
+        const size_t w = nonascii.chars[0].size();
+        const size_t np = r.chance(1, 2) ? 1 + r.below(3) : (small ? 1 + r.below(40) : scale::length(r, 70000, 16) / w + 1);
+        s.reserve(np * w + before + mg + 32);
+        fill(s, np * w, nonascii, r);
+        const size_t start = s.size();
+        fill(s, before, ascii, r);
+        b.at = s.size(); b.boundary = start + dist;
+        s += p1.u;
+        if (p2) { fill(s, gap, ascii, r); s += p2->u; }
+        fill(s, mg, ascii, r);
+        break;
+    }
+    default: {
+        const Bg<T> &runbg = (bg.ascii || r.chance(2, 3)) ? ascii : bg;
+        const long run = static_cast<long>(dist) + scale::nudge(r);
+        s.reserve(dist + 64);
+        fill(s, r.below(10), ascii, r);
+        b.at = s.size(); b.boundary = 0; b.back = 0; b.shift = static_cast<long>(b.at);
+        s += p1.u;
+        if (p2) { fill(s, gap, ascii, r); s += p2->u; }
+        fill(s, static_cast<size_t>(run > 0 ? run : 0), runbg, r);
+        break;
+    }
+    }
+    b.second = p2 != nullptr;
+    return b;
+}
+
+// (source encoding, layout) by weight; 29 entries (coprime to the 168 points of the B x q grid)
+struct Combo { Enc e; unsigned kind; };
+static const Combo WELL[29] = {
+    {E8, 0}, {EL, 0}, {E16, 0}, {E8, 3}, {E32, 0}, {E8, 1}, {EL, 3}, {E8, 2}, {E16, 1}, {E8, 0}, {EL, 1}, {E16, 3}, {E32, 1}, {E8, 0}, {EL, 0},
+    {E16, 2}, {E8, 3}, {E32, 3}, {E8, 1}, {EL, 2}, {E16, 0}, {E8, 2}, {E32, 2}, {EL, 0}, {E8, 0}, {E16, 0}, {EL, 3}, {E32, 0}, {EL, 1}};
+static const Combo MALF[29] = {
+    {E8, 0}, {E16, 0}, {E8, 0}, {E32, 0}, {E8, 3}, {EL, 0}, {E8, 0}, {E16, 1}, {E8, 1}, {E8, 0}, {E16, 0}, {E32, 1}, {E8, 2}, {E8, 0}, {EL, 3},
+    {E16, 2}, {E8, 0}, {E32, 0}, {E8, 3}, {E16, 0}, {E8, 0}, {E8, 1}, {E16, 3}, {E32, 0}, {E8, 0}, {EL, 0}, {E8, 2}, {E16, 0}, {E32, 3}};
+
+struct Guard {
+    ~Guard() { g_sel = RouteSel(); g_note.clear(); }
+};
+
+static void select_routes(uint64_t i, size_t units, unsigned monitors)
+{
+    g_sel = RouteSel();
+    g_sel.on = true;
+    g_sel.big = units >= 4096;
+    const size_t cost = units * monitors;
+    g_sel.stride = cost < 16384 ? 1 : cost < 131072 ? 7 : cost < 524288 ? 13 : cost < 2097152 ? 29 : 59;
+    if (i % 5 == 0 && cost <= 400000) g_sel.stride = 1;              // some big inputs get the whole table
+    g_sel.offset = static_cast<unsigned>((i + i / 21) % g_sel.stride);
+    if (g_sel.stride == 1) {
+        vrt::count("scale.inputs_through_whole_route_table");
+        if (units >= 4096) vrt::count("scale.inputs_through_whole_route_table>=4Ki_units");
+        if (units >= 65536) vrt::count("scale.inputs_through_whole_route_table>=64Ki_units");
+    }
+}
+
+template <typename T>
+static void one_case(uint64_t i, Rng &r, bool wellformed, Enc e, unsigned kind, size_t B, size_t q, bool small)
+{
+    const size_t dist = q * B;
+    // background: constant ASCII is what block-wise fast paths are written for, so it gets the largest share
+    unsigned bcls;
+    switch (r.below(16)) {
+    case 0: case 1: case 2: case 3: case 4: case 5: case 6: bcls = 0; break;
+    case 7: bcls = 1; break;
+    case 8: case 9: case 10: case 11: case 12: bcls = 2; break;
+    case 13: case 14: bcls = 3; break;
+    default: bcls = wellformed ? 2 : 4; break;
+    }
+    if (kind == 2) bcls = r.chance(3, 4) ? 0 : 1;
+    const Bg<T> bg = background<T>(r, e, bcls);
+    const Bg<T> ascii = bg.ascii ? bg : background<T>(r, e, r.chance(3, 4) ? 0 : 1);
+    const Bg<T> nonascii = background<T>(r, e, 2);
+    Piece<T> p1, p2v;
+    if (wellformed || e == EL || bcls == 4 || r.chance(1, 4)) p1 = valid_piece(r, e, bg);
+    else p1 = ill_piece(r, r.chance(1, 2), static_cast<const T *>(nullptr));
+    const bool second = r.chance(1, kind == 3 ? 2 : 4);
+    if (second) p2v = valid_piece(r, e, ascii);
+    const Built<T> b = build(r, kind, dist, bg, ascii, nonascii, p1, second ? &p2v : nullptr, small);
+    const Str<T> &s = b.s;
+    const size_t lo = b.at > 6 ? b.at - 6 : 0;
+    g_note = sfmt(" [scale: %zu %s units fnv=%016llx, %s at unit %zu (%zu of its %zu units before the boundary at %zu = %zu x %zu measured from the %s%s), units[%zu..]=%s, background %s%s]",
+                  s.size(), ENC_NAME[e], static_cast<unsigned long long>(vrt::fnv1a(s.data(), s.size() * sizeof(T))), PIECE_NAME[p1.cls], b.at, b.back, p1.u.size(), b.boundary, q, B,
+                  KIND_NAME[kind], b.shift ? sfmt(", moved by %ld", b.shift).c_str() : "", lo, vrt::hex(s.data() + lo, std::min<size_t>(s.size() - lo, 20), sizeof(T)).c_str(), bg.cls,
+                  second ? ", a second character 1..9 units further on" : "");
+    vrt::cur_rewind();
+    vrt::cur_printf("%s\n", g_note.c_str());
+    vrt::cur_mark_here();
+
+    // ---- through the monitors
+    if (wellformed) {
+        std::vector<unsigned long> cps;
+        bool narrow = true;
+        {
+            const ref::Decoded d = e == E8 ? ref::decode_utf8(reinterpret_cast<const unsigned char *>(s.data()), s.size())
+                                 : e == E16 ? ref::decode_utf16(reinterpret_cast<const char16_t *>(s.data()), s.size())
+                                 : e == E32 ? ref::decode_utf32(reinterpret_cast<const char32_t *>(s.data()), s.size())
+                                            : ref::decode_latin1(reinterpret_cast<const unsigned char *>(s.data()), s.size());
+            cps.reserve(d.size());
+            for (long v : d) {
+                if (v < 0 || !ref::is_scalar(static_cast<unsigned long>(v))) { fprintf(stderr, "conv: scale generator produced ill-formed text for C01\n"); _exit(98); }
+                cps.push_back(static_cast<unsigned long>(v));
+                if (v >= 0x100) narrow = false;
+            }
+        }
+        select_routes(i, s.size(), 3);
+        from_scalars(cps, true);
+        if (narrow) {
+            Input l1{1, S(cps.begin(), cps.end()), {}, {}};
+            select_routes(i, l1.u8.size(), 1);
+            if (g_sel.stride > 3) g_sel.stride = 3, g_sel.offset %= 3;     // the Latin-1 table is short
+            from_latin1(l1);
+            vrt::count("scale.latin1_inputs");
+            vrt::distinct(vrt::fnv1a(l1.u8.data(), l1.u8.size(), 75));
+        }
+        vrt::distinct(vrt::fnv1a(cps.data(), cps.size() * sizeof(unsigned long), 76));
+    } else {
+        select_routes(i, s.size(), 1);
+        if (e == EL) {
+            if (g_sel.stride > 3) g_sel.stride = 3, g_sel.offset %= 3;
+            Input l1{1, S(reinterpret_cast<const char *>(s.data()), s.size()), {}, {}};
+            from_latin1(l1);
+            vrt::count("scale.latin1_inputs");
+            vrt::distinct(vrt::fnv1a(l1.u8.data(), l1.u8.size(), 75));
+        } else if (e == E8) run8(S(reinterpret_cast<const char *>(s.data()), s.size()), true);
+        else if (e == E16) run16(S16(reinterpret_cast<const char16_t *>(s.data()), s.size()), true);
+        else run32(S32(reinterpret_cast<const char32_t *>(s.data()), s.size()), true);
+    }
+    g_sel.on = false;
+
+    // ---- what this case was
+    vrt::count("scale.cases");
+    vrt::count(sfmt("scale.source.%s", ENC_NAME[e]));
+    vrt::count(sfmt("scale.measured_from.%s", KIND_NAME[kind]));
+    vrt::count(sfmt("scale.background.%s", bg.cls));
+    vrt::count(sfmt("scale.piece.%s", PIECE_NAME[p1.cls]));
+    if (kind != 3) {
+        if (b.shift > 0) vrt::count("scale.piece_1..9_units_behind_boundary");
+        else if (b.shift < 0) vrt::count("scale.piece_1..9_units_before_boundary");
+        else if (b.back == 0) vrt::count("scale.piece_begins_on_boundary");
+        else if (b.back == p1.u.size()) vrt::count("scale.piece_ends_on_boundary");
+        else vrt::count("scale.piece_straddles_boundary");
+    } else vrt::count("scale.piece_0..9_units_after_start_of_input");
+    if (second) vrt::count("scale.second_character_1..9_units_after_piece");
+    if (s.size() >= 4096) vrt::count("scale.inputs>=4Ki_units");
+    if (s.size() >= 65536) vrt::count("scale.inputs>=64Ki_units");
+    if (s.size() >= 262144) vrt::count("scale.inputs>=256Ki_units");
+    if (s.size() >= 1048576) vrt::count("scale.inputs>=1Mi_units");
+    if (vrt::want_sample("scale") && s.size() >= 4096 && p1.u.size() > 1) vrt::sample("scale", g_note.substr(9, g_note.size() - 10));      // without the " [scale: " ... "]" wrapping
+}
+
+} // namespace big
+
+static void scale_phase(bool wellformed, uint64_t quick_cases)
+{
+    const bool valgrind = vrt::opt().scale < 1.0;
+    vrt::require("scale.cases", 100);
+    vrt::require("scale.piece_straddles_boundary", 10);
+    vrt::require("scale.piece_ends_on_boundary", 10);
+    vrt::require("scale.piece_begins_on_boundary", 10);
+    vrt::require("scale.inputs>=4Ki_units", 50);
+    vrt::require("scale.inputs_through_whole_route_table>=4Ki_units", 3);
+    if (!valgrind) {                // the memcheck pass stays below 16 Ki units
+        vrt::require("scale.inputs>=64Ki_units", 10);
+        vrt::require("scale.inputs>=1Mi_units", 1);
+        vrt::require("scale.inputs_through_whole_route_table>=64Ki_units", 1);
+    }
+    const std::vector<size_t> &BL = scale::blocks();
+    const size_t G = BL.size() * 8;
+    // calls that omit the mode differ between the three C02 builds; so do the cases, to triple what C02 sees
+    const size_t cfg = HAVE_EXPECT_DEFAULT ? static_cast<size_t>(EXPECT_DEFAULT == ST::assume_valid ? 0 : EXPECT_DEFAULT == ST::substitute_invalid ? 1 : 2) : 0;
+    vrt::note(sfmt("scale: block sizes 16 .. 1 Mi x multiples 1..8 (up to 1 Mi units) x {from the beginning, from the end, from the start of an ASCII stretch, pieces at the start of a long run} x source encodings; "
+                   "inputs of 16 Ki units or more run a rotating 1/7 .. 1/59 of the route table (every route is required on some input of >= 4 Ki units)"));
+    vrt::phase("scale", vrt::tier_count(quick_cases, quick_cases * 30), [&, wellformed, valgrind, G, cfg](uint64_t i, Rng &r) {
+        const size_t g = i % G, pass = i / G;
+        const size_t B = BL[g % BL.size()], q = 1 + g / BL.size();
+        if (q * B > (1u << 20) || (valgrind && q * B > 16384)) { vrt::count("scale.skipped_too_large"); return; }
+        const big::Combo &c = (wellformed ? big::WELL : big::MALF)[(g + pass * 11 + cfg * 5) % 29];
+        big::Enc e = c.e;
+        if (!wellformed && e == big::EL && !vrt::is_prop("C03")) e = big::E8;         // Latin-1 sources cannot be malformed: C03 only
+        big::Guard guard;
+        const bool small = q * B >= 524288;           // keep the biggest ones near 1 Mi units
+        switch (e) {
+        case big::E16: big::one_case<char16_t>(i, r, wellformed, e, c.kind, B, q, small); break;
+        case big::E32: big::one_case<char32_t>(i, r, wellformed, e, c.kind, B, q, small); break;
+        default: big::one_case<char>(i, r, wellformed, e, c.kind, B, q, small); break;
+        }
+    });
+}
+
 // Inputs whose UTF-8 *result* is just above 256 MiB while the input itself is below 256 Mi units (the documented size
 // contract is about the input).  One conversion per case (about 1 s and 0.5 GB each), checked by size, ends and terminator.
 static void huge_result_phase()
@@ -1028,6 +1448,7 @@ static void c02_body()
     vrt::note(sfmt("this binary was compiled with -DST_DEFAULT_VALIDATION selecting %s; calls that omit the mode are compared with that mode", mname(EXPECT_DEFAULT == ST::assume_valid ? 0 : EXPECT_DEFAULT == ST::substitute_invalid ? 1 : 2)));
     vrt::count(sfmt("configuration.default=%s", mname(EXPECT_DEFAULT == ST::assume_valid ? 0 : EXPECT_DEFAULT == ST::substitute_invalid ? 1 : 2)));
     malformed_phases(false);
+    scale_phase(false, 500);
 }
 
 static void c03_body()
@@ -1041,11 +1462,13 @@ static void c03_body()
     vrt::require("inputs.null_or_empty", 1);
     vrt::require("inputs.long", 3);
     malformed_phases(true);
+    scale_phase(false, 1000);
     huge_result_phase();
 }
 
 static void body()
 {
+    ambient::enable(4);
     if (vrt::is_prop("C02")) c02_body();
     else if (vrt::is_prop("C03")) c03_body();
     else c01_body();
